@@ -20,6 +20,16 @@ Theorem C03_memo_history_independent : forall (W K V : Type) (keqb : K -> K -> b
   last (run keqb truth w [] (h ++ [Query k])) (truth w k) = last (run keqb truth w [] (Memo.erase h ++ [Query k])) (truth w k).
 Proof. exact @memo_history_independent. Qed.
 
+(* the memoised implementation: with the invalidation calls the translator finds in the source (Gen/Flags.v), the memoised
+   start time of every operation after every history equals its current value *)
+Theorem C03_memoised_start_times_are_current : forall s h,
+  run path_eqb start_truth s [] (to_steps h) = run_plain start_truth s (to_steps h).
+Proof. exact memoised_start_times_are_current. Qed.
+Theorem C03_every_mutation_point_invalidates : forall c, cmd_invalidates c = true.
+Proof. exact flags_all_invalidate. Qed.
+
+Print Assumptions C03_memoised_start_times_are_current.
+Print Assumptions C03_every_mutation_point_invalidates.
 Print Assumptions C03_model_history_independent.
 Print Assumptions C03_model_answers.
 Print Assumptions C03_memo_sound.
